@@ -359,7 +359,9 @@ class V4Map(FeatureNormalizer):
 
     def fill_deriv_(self, dfdx, dfdy, x):
         i, j = self.i, self.j
-        tmp = np.exp(self.gamma * (x[i] - x[j]))
+        # exp(t) / (1 + exp(t))**2 is even in t; evaluating it at -|t| keeps
+        # the exponential <= 1, so a large argument gives 0 and not inf / inf.
+        tmp = np.exp(-np.abs(self.gamma * (x[i] - x[j])))
         tmp = dfdy * self.gamma * tmp / (1 + tmp) ** 2
         dfdx[i] -= tmp
         dfdx[j] += tmp
